@@ -1,6 +1,6 @@
 (* C19 (placeholder while the pipeline is brought up) *)
 From Coq Require Import List NArith Bool.
-Require Import Lic.
+Require Import LicAuto.
 Theorem C19_token_level_accepts_iff_spdx (id : Type) (lic_ok exc_ok : id -> bool) ts :
   code_ok id lic_ok exc_ok ts = spdx_ok id lic_ok exc_ok ts.
 Proof. apply C19_code_accepts_iff_spdx. Qed.
